@@ -470,10 +470,17 @@ def tg_catalogue(g, w, h, tiers, tgs, wide, fileno, files_on):
         p2 = f"/simfs/c13_{fileno[0]}.TextGrid"
         fmt, blanks = g.pick(FORMATS), rng.random() < 0.5
         junk = rng.randbytes(5000)
+        kw = {"reportingMode": g.pick(["silence", "silence", "warning"])}
+        if rng.random() < 0.4:
+            kw["minimumIntervalLength"] = g.pick([None, 0.5, 1e-8])
+        if rng.random() < 0.3:
+            kw["maxTimestamp"] = float(tg.maxTimestamp) + g.pick([0.0, 1.0, 2.5])
+        if rng.random() < 0.2:
+            kw["minTimestamp"] = 0.0
         saves.append({"op": "env.put", "a": [p1, {"$b": junk.hex()}]})
-        saves.append({"op": "tg.save", "recv": h, "a": [p1, fmt, blanks], "k": {"reportingMode": "silence"},
+        saves.append({"op": "tg.save", "recv": h, "a": [p1, fmt, blanks], "k": dict(kw),
                       "tag": "E-overwrite", "probe": True})
-        saves.append({"op": "tg.save", "recv": h, "a": [p2, fmt, blanks], "k": {"reportingMode": "silence"},
+        saves.append({"op": "tg.save", "recv": h, "a": [p2, fmt, blanks], "k": dict(kw),
                       "same_as": p1, "probe": True})
     return cat, saves
 
